@@ -35,7 +35,6 @@ func (r *indexResp) toInternal(
 	}
 
 	services = make(serviceRuleLists, l)
-	errs := make([]error, len(r.BlockedServices))
 	for i, svc := range r.BlockedServices {
 		var (
 			svcID internal.BlockedServiceID
@@ -44,17 +43,15 @@ func (r *indexResp) toInternal(
 
 		svcID, rl, err = svc.toInternal(ctx, logger, errColl, cacheManager, cacheCount, useCache)
 		if err != nil {
-			errs[i] = fmt.Errorf("service at index %d: %w", i, err)
+			// Do not let an invalid service prevent the valid ones from being
+			// used, the same way as with the rule-list index.
+			err = fmt.Errorf("service at index %d: %w", i, err)
+			errcoll.Collect(ctx, errColl, logger, "converting blocked services", err)
 
 			continue
 		}
 
 		services[svcID] = rl
-	}
-
-	err = errors.Join(errs...)
-	if err != nil {
-		return nil, fmt.Errorf("converting blocked services: %w", err)
 	}
 
 	return services, nil
@@ -81,6 +78,10 @@ func (svc *indexRespService) toInternal(
 	cacheCount int,
 	useCache bool,
 ) (svcID internal.BlockedServiceID, rl *rulelist.Immutable, err error) {
+	if svc == nil {
+		return "", nil, errors.ErrNoValue
+	}
+
 	svcID, err = internal.NewBlockedServiceID(svc.ID)
 	if err != nil {
 		return "", nil, fmt.Errorf("validating id: %w", err)
